@@ -19,6 +19,7 @@ from wpull.errors import ProtocolError
 from wpull.application.hook import Actions
 from wpull.pipeline.item import LinkType
 from wpull.pipeline.session import ItemSession
+from wpull.path import safe_filename
 from wpull.processor.base import BaseProcessor, BaseProcessorSession, \
     REMOTE_ERRORS
 from wpull.processor.rule import ResultRule, FetchRule
@@ -412,7 +413,9 @@ class FTPProcessorSession(BaseProcessorSession):
 
         if path:
             dir_path = os.path.dirname(path)
-            symlink_path = os.path.join(dir_path, link_name)
+            # The name comes from the server's listing
+            symlink_path = os.path.join(
+                dir_path, safe_filename(link_name, ascii_only=False))
 
             _logger.debug('symlink {} -> {}', symlink_path, link_target)
 
